@@ -14,7 +14,9 @@ If(b, name) == IF b THEN {} ELSE {name}
 
 Fails(t) ==
   IF t.panic # "" THEN {"panic"}
-  ELSE IF t.op = "New" THEN If(t.post = t.pre, "initial-children-used")
+  \* first read (ListChildren = post, the PullChildren seed = seed) against the folded option sequence
+  ELSE IF t.op = "New" THEN If(t.post = ConfChildren(t.opts), "initial-children-used")
+                            \cup If(t.seed = t.post, "pull-seed-is-first-read")
   ELSE LET r == Step(t.pre, t.op, t.name, t.traits) IN
        If(WellFormed(t.post), "sorted-duplicate-free")
        \cup If(t.post = r.post,
